@@ -6,11 +6,12 @@ CONTRACT_MODULES = ['contracts.c_heap']
 DEDUCTIVE = [{'fid': 'odml/base.py::Sectionable._match_iterable', 'mode': 'heap'},
              {'fid': 'odml/base.py::SmartList.__getitem__', 'mode': 'heap'},
              {'fid': 'odml/base.py::Sectionable.document.getter', 'mode': 'heap'},
-             {'fid': 'odml/base.py::Sectionable._matches', 'mode': 'heap'}]
+             {'fid': 'odml/base.py::Sectionable._matches', 'mode': 'heap'},
+             {'fid': 'odml/base.py::Sectionable.find', 'mode': 'heap'}]
 TIMEOUT_S = 20
 TRUSTED = ['Python == on str as modelled by the engine']
 from props.common import HEAP_ASSUMPTIONS as ASSUMPTIONS   # noqa: E402
-EXPLANATION = 'deductive: the name lookup used by every path step (_match_iterable) returns the one child of that name or raises ValueError iff there is none (uses the uniqueness invariant I6), and SmartList.__getitem__ returns the first match; the request predicate of find/find_related (_matches) accepts a Section iff name and exact lower-case type are the requested ones (include_subtype off); everything else: '  'bounded stand-in: path round trips for all ordered pairs, traversal order/once/depth, find within relation, exhaustively over small trees'
+EXPLANATION = 'deductive: the name lookup used by every path step (_match_iterable) returns the one child of that name or raises ValueError iff there is none (uses the uniqueness invariant I6), and SmartList.__getitem__ returns the first match; the request predicate of find/find_related (_matches) accepts a Section iff name and exact lower-case type are the requested ones (include_subtype off), and find (first match, exact type) returns a child satisfying the request, None iff there is none; everything else: '  'bounded stand-in: path round trips for all ordered pairs, traversal order/once/depth, find within relation, exhaustively over small trees'
 
 def bounded_jobs(tier, seed):
     return [
